@@ -199,7 +199,7 @@ def gen_config(rng, small: bool = False, focus: str | None = None) -> dict:
     for i in range(n):
         kind = rng.choice(KINDS)
         nelem = rng.choice([0, 1, 2, 3, 5, 8, 13, 64, 300, 4097, 9000] if not small else [0, 1, 3, 8])
-        g = rng.choice([0, 0, 0, 1, 2, 3])
+        g = rng.choice([0, 0, 0, 1, 2, 3, 0, 1, 2, 3, 5, 6])
         name = f"w{i}"
         # sibling subgraphs (and a subgraph vs the main graph) may legally reuse an initializer name
         others = [s for s in inits if s["g"] != g and all(t["name"] != s["name"] for t in inits if t["g"] == g)]
@@ -239,6 +239,18 @@ def gen_config(rng, small: bool = False, focus: str | None = None) -> dict:
                            # what the user did with the loaded initializers before saving again (seeded C07-r6m2:
                            # tofile() of an already materialised sub-byte external tensor)
                            "touch": rng.choice([None, None, "numpy", "tobytes", "array"])})
+    if focus == "zero":
+        # several zero-size initializers of different element types in one data file (seeded C07-r7m1): under the
+        # safetensors backend with threshold 0 they are external, all at one (path, offset, 0)
+        kinds0 = ["mem", "mem16", "lazy", "proto"]
+        cfg["inits"] = [{"kind": kinds0[j % 4], "nelem": 0 if j < 3 else rng.choice([0, 3, 8]), "g": rng.choice([0, 0, 1, 2]),
+                         "name": f"w{j}"} for j in range(rng.randrange(2, 6))]
+        cfg.update(backend="safetensors", threshold=0, max_shard=None, resave=None)
+        if rng.random() < 0.5:
+            # ... directly followed by a tensor larger than the shard limit (seeded C07-r3m1)
+            cfg["inits"].append({"kind": "mem", "nelem": rng.choice([64, 300]), "g": cfg["inits"][-1]["g"],
+                                 "name": f"w{len(cfg['inits'])}"})
+            cfg["max_shard"] = rng.choice([1, 7, 16])
     if focus == "presave":
         cfg.update(backend="safetensors" if rng.random() < 0.7 else "raw", max_shard=None, resave=None)
         for sp in cfg["inits"]:
@@ -260,7 +272,7 @@ def _build_model(ir, cfg, workdir):
     import random
     rng = random.Random(cfg["tseed"])
     dup_pool: list = []
-    per_graph = {0: [], 1: [], 2: [], 3: []}
+    per_graph = {0: [], 1: [], 2: [], 3: [], 5: [], 6: []}
     expect, objs = {}, []
     for i, spec in enumerate(cfg["inits"]):
         if "g" not in spec:                      # corpus / known-finding witnesses in the older format
@@ -291,13 +303,25 @@ def _build_model(ir, cfg, workdir):
     y = ir.Value(name="y", type=F, shape=ir.Shape([1]))
     ifn = ir.Node("", "If", [cond], attributes=[ir.AttrGraph("then_branch", sub), ir.AttrGraph("else_branch", sub2)],
                   outputs=[y], name="if")
-    g = ir.Graph([x, cond], [y], nodes=[ifn], initializers=per_graph[0], name="g", opset_imports={"": 20})
+    main_nodes = [ifn]
+    if per_graph[5] or per_graph[6]:
+        # a node with a GRAPHS (list-of-graphs) attribute whose bodies own initializers (seeded C07-r7m2)
+        bodies = []
+        for gi, gname in ((5, "gs0"), (6, "gs1")):
+            bo = ir.Value(name=f"bo{gi}", type=F, shape=ir.Shape([1]))
+            bodies.append(ir.Graph([], [bo], nodes=[ir.Node("", "Identity", [x], outputs=[bo], name=f"bn{gi}")],
+                                   initializers=per_graph[gi], name=gname))
+        yy = ir.Value(name="yy", type=F, shape=ir.Shape([1]))
+        main_nodes.append(ir.Node("custom.domain", "Switch", [cond], attributes=[ir.AttrGraphs("bodies", bodies)],
+                                  outputs=[yy], name="switch"))
+    g = ir.Graph([x, cond], [y], nodes=main_nodes, initializers=per_graph[0], name="g",
+                 opset_imports={"": 20, "custom.domain": 1})
     return ir.Model(g, ir_version=10), objs, expect
 
 
 def _graph_index(model):
     """graph object -> 0 (main) / 1 (then) / 2 (else), by graph name"""
-    return {id(gr): {"g": 0, "then": 1, "else": 2, "deep": 3, "deepelse": 4}[gr.name] for gr in model.graphs()}
+    return {id(gr): {"g": 0, "then": 1, "else": 2, "deep": 3, "deepelse": 4, "gs0": 5, "gs1": 6}[gr.name] for gr in model.graphs()}
 
 
 def _save(ir, model, cfg, path, threshold, workers, callback=None):
@@ -406,6 +430,24 @@ def run_impl(cfg: dict, workdir: str) -> dict:
                 ent["bytes_ok"] = False
                 ent["read_error"] = type(e).__name__
             rb[key] = ent
+    # a second load brought fully into memory (external_data.load_to_model): name, dtype, shape and bytes again
+    l2m_bad = []
+    try:
+        loaded2 = ir.external_data.load_to_model(ir.load(path))
+        gi3 = _graph_index(loaded2)
+        for gr in loaded2.graphs():
+            for name, v in gr.initializers.items():
+                key = f"{gi3[id(gr)]}/{name}"
+                t = v.const_value
+                e = expect[key]
+                if isinstance(t, ir.ExternalTensor):
+                    l2m_bad.append(f"{key}: still external after load_to_model")
+                elif int(t.dtype) != e["dtype"] or list(t.shape) != e["shape"] or t.tobytes() != e["bytes"]:
+                    l2m_bad.append(f"{key}: load_to_model gives dtype={int(t.dtype)} shape={list(t.shape)} "
+                                   f"(expected dtype={e['dtype']} shape={e['shape']}), bytes_ok={t.tobytes() == e['bytes']}")
+    except Exception as e:  # noqa: BLE001
+        l2m_bad.append(f"load_to_model raised {type(e).__name__}")
+    obs["l2m_bad"] = l2m_bad
     obs["loaded_order"] = [f"{gi2[id(gr)]}/{n}" for gr in loaded.graphs() for n in gr.initializers]
     obs["loaded"] = rb
     outdir = os.path.join(workdir, "out")
@@ -462,6 +504,8 @@ def oracle(cfg: dict, obs: dict) -> list[str]:
     exp = obs["expect"]
     if sorted(obs["loaded_order"]) != sorted(obs["order"]):
         bad.append("initializer names differ after load")
+    for line in obs.get("l2m_bad", []):
+        bad.append(line)
     st = cfg.get("backend") == "safetensors"
     al = None if st else cfg["alignment"]
     for name, ent in obs["loaded"].items():
@@ -772,7 +816,7 @@ def run(ck) -> None:
                 c.setdefault(key, val)
             cfgs.append(c)
     for i in range(n_cases):
-        focus = {1: "aligned-shards", 2: "resave", 3: "presave"}.get(i % 5)
+        focus = {1: "aligned-shards", 2: "resave", 3: "presave", 4: "zero" if i % 10 == 4 else None}.get(i % 5)
         cfgs.append(gen_config(ck.rng, small=(i % 3 == 0), focus=focus))
     oracle_failures = []
     for i, cfg in enumerate(cfgs):
